@@ -10,6 +10,7 @@ X=""; [ "$R" != "/repo" ] && X="OPSIM_REPO=$R"
 for d in seeded/*/; do
   id=$(basename $d)
   [ -n "$only" ] && [[ "$id" != $only* ]] && continue
+  [ -n "$ONLY_RE" ] && ! [[ "$id" =~ $ONLY_RE ]] && continue
   [ -n "$SKIP_UNTIL" ] && [[ "$id" < "$SKIP_UNTIL" ]] && continue
   props=$(python3 -c "import json;m=json.load(open('$d/meta.json'));print('' if m.get('superseded_by') else ' '.join(m['detected_by']))")
   [ -z "$props" ] && { echo "$id superseded-by-a-later-fix"; continue; }
